@@ -8,7 +8,8 @@
 From LV Require Import Base.Bytes Base.Sx Model.Obj Model.Writer Model.Parser Model.Save Model.Xref Model.Loader
   Model.Utf Gen.Lex Proofs.LexProofs Proofs.ObjectRtProofs Proofs.SaveProofs Spec.SaveSpec Proofs.LoadProofs
   Proofs.LoadProofsFile Proofs.LoadProofsXref Proofs.LoadProofsTable Proofs.LoadProofsAgain Proofs.LoadProofsStream
-  Proofs.LoadProofsFull Spec.XrefSpec Gen.SaveFmt Model.LoaderExt Proofs.LoaderExtProofs.
+  Proofs.LoadProofsFull Spec.XrefSpec Gen.SaveFmt Model.LoaderExt Proofs.LoaderExtProofs
+  Model.LoaderEnc Proofs.LoaderEncProofs.
 
 Local Open Scope N_scope.
 
@@ -347,6 +348,115 @@ Proof.
   split; [vm_compute; reflexivity | reflexivity].
 Qed.
 
+(* ------------------------------------------------------------------------------------------
+   Part D.  Encrypted files.  Model/LoaderEnc.v: Reader::read with the Encrypt branch -- the objects are read as
+   for any file (object streams stay closed), then the document goes to the decrypt attempt with the empty
+   password, the parameter [after] (Model/LoaderCrypt.v instantiates it with C05's security handler).
+   [savable_enc] = [savable] without "no Encrypt entry": an encrypted document is written and read like any other
+   (the encryption dictionary is an ordinary object, ciphertext strings and stream bodies are arbitrary bytes).
+   ------------------------------------------------------------------------------------------ *)
+
+(* (16) The reader with the Encrypt branch is the reader of (15) on every file whose trailer has no Encrypt entry,
+   whatever the decrypt attempt would do, and wherever load_ext answers at all *)
+Theorem C01_loader_enc_agrees :
+  forall decompress can_decompress (R : Type) (ret : lres -> R) (after : Xref.xmap -> doc -> xtype -> R) b,
+    file_encrypted decompress can_decompress b = false ->
+    load_encx decompress can_decompress R ret after b = ret (load_ext decompress can_decompress b).
+Proof. exact load_enc_agrees. Qed.
+
+Theorem C01_loader_enc_conservative :
+  forall decompress can_decompress (R : Type) (ret : lres -> R) (after : Xref.xmap -> doc -> xtype -> R) b,
+    load_ext decompress can_decompress b <> LUnmodelled ->
+    load_encx decompress can_decompress R ret after b = ret (load_ext decompress can_decompress b).
+Proof. exact load_enc_conservative. Qed.
+
+(* (17) C01_full on the wider domain.  For a document whose trailer may carry Encrypt: the loader hands EXACTLY the
+   reloaded document to the decrypt attempt (with the cross-reference table of the file, Normal entries only, and the
+   remembered format); without an Encrypt entry it returns the reloaded document as in (14).  The reloaded document is
+   the same in the property's sense, and so is the document of a second cycle. *)
+Theorem C01_full_encx :
+  forall decompress can_decompress (R : Type) (ret : lres -> R) (after : Xref.xmap -> doc -> xtype -> R) xt d,
+    savable_enc d -> known_deep d = false -> small_file xt d -> cycles_fit xt d ->
+    (exists x : Save.xmap, Forall normal_ok x /\
+       load_encx decompress can_decompress R ret after (so_bytes (save xt d)) =
+       if dict_has (d_trailer d) Save.K_Encrypt then after (conv_map x) (reloaded xt d) (xtype_of xt)
+       else ret (LOk (reloaded xt d) (xtype_of xt))) /\
+    same_doc d (reloaded xt d) /\
+    (small_file xt (reloaded xt d) ->
+     (exists x : Save.xmap, Forall normal_ok x /\
+        load_encx decompress can_decompress R ret after (so_bytes (save xt (reloaded xt d))) =
+        if dict_has (d_trailer (reloaded xt d)) Save.K_Encrypt
+        then after (conv_map x) (reloaded xt (reloaded xt d)) (xtype_of xt)
+        else ret (LOk (reloaded xt (reloaded xt d)) (xtype_of xt))) /\
+     same_doc (reloaded xt d) (reloaded xt (reloaded xt d)) /\
+     same_doc d (reloaded xt (reloaded xt d))).
+Proof. exact load_save_enc. Qed.
+
+(* the decrypt attempt as a function of the document alone: load_enc after (save xt d) = after (reloaded xt d) xt *)
+Theorem C01_full_enc :
+  forall decompress can_decompress (after : doc -> xtype -> lres) xt d,
+    savable_enc d -> known_deep d = false -> small_file xt d -> cycles_fit xt d ->
+    load_enc decompress can_decompress after (so_bytes (save xt d)) =
+      (if dict_has (d_trailer d) Save.K_Encrypt then after (reloaded xt d) (xtype_of xt)
+       else LOk (reloaded xt d) (xtype_of xt)) /\
+    same_doc d (reloaded xt d) /\
+    (small_file xt (reloaded xt d) ->
+     load_enc decompress can_decompress after (so_bytes (save xt (reloaded xt d))) =
+       (if dict_has (d_trailer (reloaded xt d)) Save.K_Encrypt then after (reloaded xt (reloaded xt d)) (xtype_of xt)
+        else LOk (reloaded xt (reloaded xt d)) (xtype_of xt)) /\
+     same_doc (reloaded xt d) (reloaded xt (reloaded xt d)) /\
+     same_doc d (reloaded xt (reloaded xt d))).
+Proof.
+  intros dc cd after xt d S K Hs Hf.
+  destruct (load_save_enc dc cd lres (fun r => r) (fun _ => after) xt d S K Hs Hf) as [[x [_ L1]] [D1 H2]].
+  split; [exact L1|]. split; [exact D1|]. intro Hs1. destruct (H2 Hs1) as [[x' [_ L2]] [D2 D3]].
+  split; [exact L2|]. split; assumption.
+Qed.
+
+(* [savable_enc] with the one field more is [savable] *)
+Theorem C01_savable_enc_iff :
+  forall d, savable d <-> savable_enc d /\ dict_has (d_trailer d) Save.K_Encrypt = false.
+Proof.
+  intro d. split.
+  - intro S. split; [apply savable_enc_of; exact S | apply (sd_no_encrypt d S)].
+  - intros [S E]. apply savable_of_enc; assumption.
+Qed.
+
+(* non-vacuity: the example document with an Encrypt entry naming object 3 meets every hypothesis in both formats and
+   both cycles; handed to "nothing is decrypted" the loader returns it with the entry in place *)
+Definition ex_enc : doc :=
+  {| d_version := d_version ex_doc; d_binary_mark := d_binary_mark ex_doc;
+     d_trailer := [(K_Root, ORef 1 0); (Save.K_Encrypt, ORef 3 2)];
+     d_objects := d_objects ex_doc; d_max_id := 4 |}.
+
+Theorem C01_example_enc :
+  savable_enc ex_enc /\ known_deep ex_enc = false /\ dict_has (d_trailer ex_enc) Save.K_Encrypt = true /\
+  small_file XTable ex_enc /\ small_file XStream ex_enc /\ cycles_fit XStream ex_enc /\
+  small_file XTable (reloaded XTable ex_enc) /\ small_file XStream (reloaded XStream ex_enc) /\
+  dict_get (d_trailer (reloaded XStream ex_enc)) Save.K_Encrypt = Some (ORef 3 2) /\
+  load_keep (fun _ _ => None) (fun _ => false) (so_bytes (save XStream ex_enc)) = LOk (reloaded XStream ex_enc) XTStream.
+Proof.
+  split.
+  - constructor; cbn [ex_enc ex_doc d_version d_binary_mark d_trailer d_objects d_max_id].
+    + change (last_number [((1, 0), ODict [(K_Type, OName (bs "Catalog"))]); ((3, 2), OStream [(K_Length, OInt 3)] (bs "abc"))]) with 3.
+      unfold u32_mod. lia.
+    + reflexivity.
+    + reflexivity.
+    + vm_compute. discriminate.
+    + cbn [obj_numbers map fst increasing]. repeat split; reflexivity.
+    + apply Forall_cons; [|apply Forall_cons; [|apply Forall_nil]]; cbn [fst snd].
+      * split; [vm_compute; discriminate|]. split; [|reflexivity].
+        cbn [top_wf]. constructor; [repeat constructor; cbn; intuition discriminate|]. repeat constructor.
+      * split; [vm_compute; discriminate|]. split; [|reflexivity].
+        cbn [top_wf]. split; [|reflexivity].
+        constructor; [repeat constructor; cbn; intuition discriminate|]. repeat constructor.
+    + constructor; [repeat constructor; cbn; intuition discriminate|].
+      constructor; [|constructor; [|constructor]]; cbn [snd]; constructor; vm_compute; discriminate.
+    + reflexivity.
+  - repeat split; vm_compute; reflexivity.
+Qed.
+
+
 Print Assumptions C01_offsets_sound.
 Print Assumptions C01_offsets_complete.
 Print Assumptions C01_startxref_exact.
@@ -372,3 +482,9 @@ Print Assumptions C01_same_doc_reading.
 Print Assumptions C01_reloaded_in_domain.
 Print Assumptions C01_example_domain.
 Print Assumptions C01_known_class_witness.
+Print Assumptions C01_loader_enc_agrees.
+Print Assumptions C01_loader_enc_conservative.
+Print Assumptions C01_full_encx.
+Print Assumptions C01_full_enc.
+Print Assumptions C01_savable_enc_iff.
+Print Assumptions C01_example_enc.
